@@ -4,7 +4,7 @@ function that creates them); every strongly connected component is a recursion. 
 on its depth and, where the bound is a fact about the code, a structural check of that fact.  A cycle that is not listed, or whose
 check fails, is reported.  (Calls through `dyn Fn` values - the render operation stored in a frame's render handle - are not edges
 of this graph; the cycle they take part in is the same reference-frame chain as the `blend` cycle below.)"""
-from ..facts import callee, op_const_int
+from ..facts import callee, op_const_int, op_local as op_local_
 from .. import validation
 
 
@@ -87,7 +87,33 @@ def check_clusters(ctx, fns, comp):
                 for v, x in list(t[2]) + [("o", t[3])]:
                     if not any(nb in rc.reachable(x) for nb, _ in nested):
                         ok = True
-    return None if ok else "read_clusters has no `num_dist == 1` exit that avoids the nested decoder"
+    if not ok:
+        return "read_clusters has no `num_dist == 1` exit that avoids the nested decoder"
+    # a nested decoder with LZ77 has one more distribution than it was asked for: it must be impossible for maps of <= 2 distributions,
+    # or each level of nesting can start another one.  Every call of the LZ77-capable Decoder::parse in read_clusters sits on the
+    # `num_dist > 2` side of a comparison of num_dist with 2 (the other side uses the no-LZ77 parser / rejects the LZ77 bit).
+    full = [(b, t) for b, t in rc.calls() if callee(t) and callee(t)["fn"] == "jxl_coding::Decoder::parse"]
+    for b, t in full:
+        guarded = False
+        for sb, blk in enumerate(rc.blocks):
+            if blk[2] or blk[1][0] != "switch" or not rc.dominates(sb, b) or sb == b:
+                continue
+            for st in blk[0]:
+                if st[0] == "=" and st[2][0] == "bin" and st[2][1] in ("Le", "Lt", "Gt", "Ge") and st[1] == [op_local_(blk[1][1])]:
+                    k = op_const_int(st[2][3]) if op_const_int(st[2][3]) is not None else op_const_int(st[2][2])
+                    if k in (2, 3):
+                        # which edge reaches the call?
+                        for v, succ in [(x[0], x[1]) for x in blk[1][2]] + [("otherwise", blk[1][3])]:
+                            if succ == b or rc.dominates(succ, b):
+                                truth = (v != "0")
+                                small = (st[2][1], k) in (("Le", 2), ("Lt", 3))
+                                # the call must be on the "not small" side
+                                if (small and not truth) or ((st[2][1], k) in (("Gt", 2), ("Ge", 3)) and truth):
+                                    guarded = True
+        if not guarded:
+            return ("read_clusters builds its nested decoder with the LZ77-capable Decoder::parse also for maps of at most two "
+                    "distributions: every nesting level can enable LZ77 and start another one (input-controlled depth)")
+    return None
 
 
 def check_ma_depth(ctx, fns, comp):
@@ -121,7 +147,11 @@ def check_halving(ctx, fns, comp):
 # frozenset of function paths -> (bound, structural check or None, finding)
 REVIEWED = [
     ({"jxl_coding::Decoder::parse", "jxl_coding::Decoder::parse_assume_no_lz77", "jxl_coding::DecoderInner::parse", "jxl_coding::read_clusters"},
-     "depth 2: the cluster map is coded with a decoder for one distribution, and read_clusters returns at once for one distribution", check_clusters, False),
+     "depth <= 3: the cluster map is coded with a decoder for one distribution; that decoder may enable LZ77 (one more distribution) only "
+     "when the map has more than two distributions, and read_clusters returns at once for one distribution", check_clusters, False),
+    # the same cycle with the no-LZ77 variant of the parser written out in read_clusters
+    ({"jxl_coding::Decoder::parse", "jxl_coding::DecoderInner::parse", "jxl_coding::read_clusters"},
+     "depth <= 3: as above, the LZ77 prohibition for small maps written inline", check_clusters, False),
     ({"jxl_modular::ma::MaTreeNode::next_decision_node"},
      "depth <= depth of the MA tree, which the parser limits (depth_limit, named in R-LIMIT)", check_ma_depth, False),
     ({"jxl_render::vardct::generic::dct::dct"}, "depth log2(n), n <= 256: the slice is halved at every level", check_halving, False),
